@@ -469,6 +469,135 @@ def explore(res, case, P, mode, budget, rng=None, part=None):
     return executed, exhaustive
 
 
+def stress_section(res, seconds, seed, max_size):
+    """free-running complement: real GIL preemption (switch interval 1 us), 4 threads hammering one PooledClient over
+    FakeNet; race-free monitors only (ledger under its own lock, exclusive-use guard, conservation at quiescence)."""
+    import sys
+    import time as _time
+    import pymemcache.client.base as base
+    old_si = sys.getswitchinterval()
+    sys.setswitchinterval(1e-6)
+    net = FakeNet()
+    net.trace_enabled = False
+    srv = net.add_server("mc1", 11211, RefServer())
+    srv.store[b"h1"] = Item(b"v1", 0, 0, srv._next_cas())
+    mlock = threading.Lock()
+    held, active, viol = {}, {}, []
+
+    class Guarded(base.Client):
+        pass
+
+    def guard(name):
+        orig = getattr(base.Client, name)
+
+        def f(self, *a, **k):
+            me = threading.get_ident()
+            with mlock:
+                other = active.get(id(self))
+                if other is not None and other != me:
+                    viol.append(("stress:inner-client-used-by-two-threads", "%s entered while another thread is inside" % name))
+                active[id(self)] = me
+            try:
+                return orig(self, *a, **k)
+            finally:
+                with mlock:
+                    if active.get(id(self)) == me:
+                        active[id(self)] = None
+        return f
+    for name in ("set", "get", "get_many", "delete", "incr"):
+        setattr(Guarded, name, guard(name))
+    pc = base.PooledClient(("mc1", 11211), socket_module=net, max_pool_size=max_size, default_noreply=False)
+    pc.client_class = Guarded
+    pool = pc.client_pool
+    og, orl, od = pool.get, pool.release, pool.destroy
+
+    def get():
+        obj = og()
+        me = threading.get_ident()
+        with mlock:
+            if obj in held and held[obj] != me:
+                viol.append(("stress:connection-shared-between-threads", "get() handed out an object another thread holds"))
+            held[obj] = me
+        return obj
+
+    def ending(fn):
+        def f(obj, *a, **k):
+            with mlock:
+                if held.get(obj) == threading.get_ident():
+                    del held[obj]
+            return fn(obj, *a, **k)
+        return f
+    pool.get, pool.release, pool.destroy = get, ending(orl), ending(od)
+    stop = _time.time() + seconds
+    counts = {"ops": 0, "exhausted": 0, "errors": 0}
+
+    def worker(i):
+        r = random.Random(seed * 100 + i)
+        n = 0
+        while _time.time() < stop:
+            n += 1
+            net.begin_call((i, n))
+            try:
+                c = r.random()
+                if c < 0.35:
+                    pc.set("k%d" % i, b"v%d" % i)
+                elif c < 0.7:
+                    if pc.get("h1") != b"v1":
+                        with mlock:
+                            viol.append(("stress:wrong-result", "get returned a foreign value"))
+                elif c < 0.8:
+                    net.faults[((i, n), "recv")] = "reset"
+                    try:
+                        pc.get("h1")
+                    except OSError:
+                        pass
+                elif c < 0.9:
+                    try:
+                        pc.get("bad key")
+                    except Exception:
+                        pass
+                else:
+                    pc.incr("k%d" % i, 1)
+                counts["ops"] += 1
+            except RuntimeError as e:
+                if "Too many objects" in str(e):
+                    counts["exhausted"] += 1
+                else:
+                    with mlock:
+                        viol.append(("stress:internal-error", repr(e)))
+            except Exception as e:
+                counts["errors"] += 1
+    ts = [threading.Thread(target=worker, args=(i,), daemon=True) for i in range(4)]
+    for t in ts:
+        t.start()
+    for t in ts:
+        t.join(seconds + 30)
+    sys.setswitchinterval(old_si)
+    if any(t.is_alive() for t in ts):
+        res.inconclusive.append("stress workers did not finish")
+        return
+    if pool.used:
+        viol.append(("stress:objects-still-checked-out-at-quiescence", "used=%d" % len(pool.used)))
+    idle = {id(getattr(c.sock, "raw", c.sock)) for c in pool.free if c.sock is not None}
+    for s_ in net.socks:
+        if not s_.closed and id(s_) not in idle:
+            viol.append(("stress:socket-neither-pooled-nor-closed", "socket %d open but not pooled" % s_.sid))
+        if s_.closed and s_.close_count != 1:
+            viol.append(("stress:socket-closed-more-than-once", "socket %d closed %d times" % (s_.sid, s_.close_count)))
+    for kind, detail in net.alarms:
+        if kind in ("STALE_READ", "USE_AFTER_CLOSE"):
+            viol.append(("stress:socket-monitor:" + kind, detail))
+    res.count("stress_operations", counts["ops"])
+    res.count("stress_exhaustions", counts["exhausted"])
+    res.count("stress_sockets", len(net.socks))
+    seen = set()
+    for key, msg in viol:
+        if key not in seen:
+            seen.add(key)
+            res.violation(key, msg, ("stress", seconds, seed, max_size))
+    res.case(("stress", seed, max_size, counts["ops"] // 1000))
+
+
 def cases(tier):
     out = []
     # (i) ObjectPool alone
@@ -493,6 +622,13 @@ def cases(tier):
         for a, b, c in itertools.product(["set", "fail_recv", "close", "quit"], repeat=3):
             if (common.h64((a, b, c, ms)) % (8 if tier == "quick" else 2)) == 0:
                 out.append((("client", ((a, c), (b,)), ms), 1 if tier == "quick" else 2))
+    if tier == "thorough":
+        # three operations in one thread, and PooledClient programs for the INSTRUCTION pass (see shard)
+        r = random.Random(8)
+        for _ in range(60):
+            out.append((("pool", (tuple(r.choice(POOL_OPS) for _ in range(3)), (r.choice(POOL_OPS),)), r.choice((1, 2, None)), 0), 1))
+        for _ in range(24):
+            out.append((("client", (tuple(r.choice(CLIENT_OPS) for _ in range(3)), (r.choice(CLIENT_OPS),)), r.choice((1, 2, None))), 1))
     # a thread that goes on after quit()/a failed call while another thread checks out: two preemptions are needed to
     # hand a doubly-released connection to two threads; explored exhaustively even in quick (budget override)
     for first in ("quit", "fail_recv", "illegal_key"):
@@ -523,14 +659,19 @@ def shard(tier, seed, idx, n):
         allex = allex and exhaustive
         if not exhaustive:
             res.count("cases_cut_by_budget")
+    if tier == "thorough" and idx < 3:
+        stress_section(res, 15, seed + idx, (2, 4, None)[idx])
     if tier == "thorough":
         # INSTRUCTION granularity on the pool-alone programs, P=2
         S.install(pool_codes(), "ins")
         for ci, entry in enumerate(cs):
             case, P = entry[0], entry[1]
-            if ci % n != idx or case[0] != "pool" or len(case[1]) != 2 or any(len(p) > 1 for p in case[1]):
+            if ci % n != idx or len(entry) > 2 or len(case[1]) != 2 or any(len(p) > 1 for p in case[1]):
                 continue
-            ex, exhaustive = explore(res, case, 2, "ins", 12000, random.Random(seed + ci))
+            if case[0] == "client" and P != 2:
+                continue        # each client pair once
+            ex, exhaustive = explore(res, case, 2 if case[0] == "pool" else 1, "ins", 12000 if case[0] == "pool" else 6000,
+                                     random.Random(seed + ci))
             res.count("instruction_granularity_cases")
             allex = allex and exhaustive
         S.install(pool_codes(), "line")
@@ -542,6 +683,12 @@ def shard(tier, seed, idx, n):
 
 def replay(case):
     res = common.Result()
+    if case[0] == "stress":
+        stress_section(res, case[1], case[2], case[3])
+        for cn in REQUIRED_COUNTERS:
+            res.count(cn)
+        res.nontrivial.update({1, 2})
+        return res
     c, forced, mode = case
     S.install(pool_codes(), mode)
     sch, viol, mon, ok = run_case(c, forced, mode)
